@@ -696,6 +696,8 @@ META["explanation"] += " " + 'Also (round 12): the per-CPU helper array and its 
 
 META["explanation"] += " " + 'Also (round 13): PAUSE is set before the helper / worker is woken (call_rcu_before_fork, urcu_workqueue_pause_worker), with a full barrier in between; only the RT-flag edge may skip the wake-up.'
 
+META["explanation"] += " " + 'Also (round 14): every listed helper is asked and waited for in before_fork; pause_worker returns only along PAUSED; the compatibility-name tables agree with their targets (sa/aliases.py); known finding C16.forkfree (before_fork vs concurrent call_rcu_data_free).'
+
 RULES = [
     ("C16.handoff", rule_handoff),
     ("C16.handoff", rule_bp_handoff),
